@@ -583,7 +583,7 @@ func c06History(t *testing.T, rep *vfReport, r *vfRng, nOps int) (ops, impl []st
 func TestVerifC06(t *testing.T) {
 	rep := vfNewReport("C06", "generated schedules of write transactions (1-4 statements: inserts with blobs up to 20 kB, updates, deletes, DDL), reader start/stop (≤3 concurrent read transactions on real read-only connections) and incremental/full checkpoint attempts on a real WAL-mode SQLite database; a schedule is non-trivial when at least one attempt was blocked (busy or all-moved-not-truncated) and at least one capture succeeded; distinct by outcome-annotated schedule")
 	defer rep.Write()
-	r := vfNewRng(6)
+	r := c06Rng(6)
 	n := vfScale(60, 1500)
 	var allOps, allImpl [][]string
 	for h := 0; h < n; h++ {
@@ -592,4 +592,12 @@ func TestVerifC06(t *testing.T) {
 		allImpl = append(allImpl, impl)
 	}
 	rep.vfCompareSegments("walckpt", allOps, allImpl)
+}
+
+// c06Rng decorrelates seeds: vfNewRng's streams for seeds k and k+1 are the same sequence
+// shifted by one draw, so the state is hashed once before use.
+func c06Rng(salt uint64) *vfRng {
+	r := vfNewRng(salt)
+	r.s = r.U64()*0x2545F4914F6CDD1D + salt
+	return r
 }
